@@ -19,8 +19,9 @@ class VirtualMachine:
     manipulating it, but the HERA language itself is defined in `hera/op.py`.
     """
 
-    def __init__(self, settings=Settings()) -> None:
-        self.settings = settings
+    def __init__(self, settings=None) -> None:
+        # A default argument of Settings() would be one object shared by every machine.
+        self.settings = settings if settings is not None else Settings()
         self.reset()
 
     def reset(self) -> None:
